@@ -17,6 +17,7 @@ import os
 
 from synq import (show_stmts, walk, show, strs, last_seg, pat_alts, pat_head, tail_expr, matches_of, mcalls, calls, macros,
                   lit_val, AnchorMissing)
+import guards
 import tables
 import sqltmpl
 import stdlib
@@ -638,6 +639,26 @@ def r7(ctx, rep):
                 good = good and okr
             else:
                 good = False
+        if name in ("std.eq", "std.ne"):
+            # literals of different kinds must not be folded with Rust's `==` (1 == 1.0 is false in Rust, TRUE in SQL)
+            guarded = bool(rets)
+            par = guards.parents(body)
+            for r in rets:
+                cur = r
+                ok_g = False
+                while True:
+                    pp = par.get(id(cur))
+                    if pp is None:
+                        break
+                    if pp.get("k") == "if" and show(pp["c"]) == "(left.as_ref() == right.as_ref())" and (pp["t"] is cur or guards._contains(pp["t"], cur)):
+                        ok_g = True
+                        break
+                    cur = pp
+                guarded = guarded and ok_g
+            rep.check(guarded, f"fold:{name}:same-kind",
+                      f"folding `{name}` of two literals must be guarded by `left.as_ref() == right.as_ref()` (same literal kind): "
+                      "Rust compares an Integer and a Float literal as different values where SQL compares them numerically",
+                      file=f["file"], line=line, fn=f["path"])
         rep.check(good, f"fold:{name}",
                   f"every folded result of `{name}` must be Literal(<operand> {spec['rust_op']} <operand>) in source order; found {[show(r.get('e'), maxdepth=10) for r in rets]}",
                   file=f["file"], line=line, fn=f["path"])
@@ -774,6 +795,43 @@ def r8(ctx, rep):
                   file=where[0][0], line=where[0][1], fn=where[0][2])
 
 
+def r9(ctx, rep):
+    rep.rule("C02.R9", "declared strength is not erased: no ExprOrSource is flattened with into_ast() and re-wrapped as an operand", floor=20)
+    syn = ctx.syn
+    for f in syn.fns:
+        if f["crate"] != "prqlc" or "/sql/" not in f["file"] or "body" not in f:
+            continue
+        # locals bound to `<x>.into_ast()`
+        flat = {}
+        for n in walk(f["body"]):
+            if n.get("k") == "local" and n.get("init") is not None:
+                i = n["init"]
+                if i.get("k") == "mcall" and i["m"] == "into_ast":
+                    flat[show(n["pat"])] = i
+        for n in walk(f["body"]):
+            if n.get("k") == "mcall" and n["m"] == "into_ast":
+                key = f"into_ast:{f['path']}:{show(n['r'], maxdepth=4)[:60]}"
+                rep.ok(key, nontrivial=False)
+            rewrap = None
+            if n.get("k") == "mcall" and n["m"] == "into" and "ExprOrSource" in f.get("ret", ""):
+                r = n["r"]
+                if r.get("k") == "mcall" and r["m"] == "into_ast":
+                    rewrap = r
+                elif r.get("k") == "path" and r["p"] in flat:
+                    rewrap = flat[r["p"]]
+            if n.get("k") == "call" and show(n["f"]) in ("ExprOrSource::from", "ExprOrSource::Expr") and n["a"]:
+                a = n["a"][0]
+                while a.get("k") == "call" and a["a"]:
+                    a = a["a"][0]
+                if a.get("k") == "mcall" and a["m"] == "into_ast":
+                    rewrap = a
+            if rewrap is not None:
+                rep.bad(f"rewrap:{f['path']}:{show(rewrap['r'], maxdepth=4)[:60]}",
+                        f"`{show(n, maxdepth=6)}` flattens an ExprOrSource to an identifier (the s-string hack) and re-wraps it as an operand: a template's "
+                        "declared binding strength is replaced by the atom strength, so a parent never parenthesises it",
+                        file=f["file"], line=n["l"], fn=f["path"])
+
+
 def run(ctx, rep):
-    for r in (r1, r2, r3, r4, r5, r6, r7, r8):
+    for r in (r1, r2, r3, r4, r5, r6, r7, r8, r9):
         rep.guard(r, ctx)
